@@ -166,7 +166,7 @@ def class_fields(classes, name, seen=()):
 
 def check_symbols(res, H, sources):
     res.rule("R-XLANG-ENUM", "every mujoco.mjtE[.mjNAME], mujoco.mj_fn, mujoco.mjCONST spelled in MJX exists in the C "
-             "headers (enumerator in that very enum)", floor=1)
+             "headers (enumerator in that very enum)", floor=250)
     seen = set()
     for fname, tree in sources.items():
         if not imports_mujoco(tree):
@@ -235,7 +235,7 @@ def check_symbols(res, H, sources):
 def mirrors(res, H, classes):
     """Returns {class: {"cenum": mjtE, "partial": [omitted C value enumerators], "kind": base}}."""
     res.rule("R-XLANG-MIRROR", "every types.py enum member NAME bound to mujoco.mjtE.mjP_NAME mirrors one C enum and the "
-             "enumerator of the same name", floor=116)
+             "enumerator of the same name", floor=110)
     rel = f"{MJX}/types.py"
     out = {}
     for cname, c in classes.items():
@@ -395,7 +395,7 @@ def reachable(io_funcs, root):
 
 def check_gates(res, H, sources, classes, mir):
     res.rule("R-XLANG-GATE", "every partial IntEnum/IntFlag mirror is gated by a NotImplementedError membership test on "
-             "the JAX put_model path; gate table rows are coherent (field in mjModel, C enum = mirrored enum)", floor=12)
+             "the JAX put_model path; gate table rows are coherent (field in mjModel, C enum = mirrored enum)", floor=22)
     io = sources["io.py"]
     io_funcs = functions(io)
     root = jax_put_root(io_funcs)
@@ -921,7 +921,7 @@ def mjx_sensor_stages(tree):
 
 def check_stages(res, H, sources, classes, repo):
     res.rule("R-XLANG-STAGE", "each SensorType member is handled by exactly the MJX stage function of the stage the C "
-             "compiler (sensorNeedstage) assigns to it", floor=1)
+             "compiler (sensorNeedstage) assigns to it", floor=30)
     ctab, crel, cline = c_sensor_stages(repo)
     senum = H.enumerators("mjtSensor")
     stenum = H.enumerators("mjtStage")
@@ -931,9 +931,17 @@ def check_stages(res, H, sources, classes, repo):
     if missing:
         raise AnalysisError(f"{crel}:{cline}: sensorNeedstage has no case for {missing}")
     st = mjx_sensor_stages(sources["sensor.py"])
-    if set(st) != {"mjSTAGE_POS", "mjSTAGE_VEL", "mjSTAGE_ACC"}:
-        raise AnalysisError(f"{MJX}/sensor.py: expected stage functions for POS, VEL, ACC; found {sorted(st)}")
     rel = f"{MJX}/sensor.py"
+    unknown = [s_ for s_ in st if s_ not in stenum]
+    for s_ in unknown:
+        fname, line, _ = st.pop(s_)
+        res.bad("R-XLANG-STAGE", f"{fname}:stage", rel, line, f"{fname} selects rows with m.sensor_needstage == "
+                f"mujoco.mjtStage.{s_}, which is not an enumerator of mjtStage")
+    want = {"mjSTAGE_POS", "mjSTAGE_VEL", "mjSTAGE_ACC"}
+    if not want <= set(stenum):
+        raise AnalysisError("anchor vanished: mjSTAGE_POS/VEL/ACC")
+    if set(st) - want or (want - set(st) and not unknown):
+        raise AnalysisError(f"{MJX}/sensor.py: expected stage functions for POS, VEL, ACC; found {sorted(st)}")
     sens = classes.get("SensorType")
     if not sens or not sens["members"]:
         raise AnalysisError(f"{MJX}/types.py: anchor vanished: SensorType")
@@ -980,7 +988,7 @@ def run(res, tier):
     mir = mirrors(res, H, classes)
     check_gates(res, H, sources, classes, mir)
     res.rule("R-XLANG-ATTR", "every attribute read / getattr copy on mujoco.MjModel/MjData/MjOption/MjStatistic objects in "
-             "io.py names a member of the C struct (or a derived field assigned in the same function)", floor=1)
+             "io.py names a member of the C struct (or a derived field assigned in the same function)", floor=900)
     n_explicit, n_copy, foreign = check_attrs(res, H, sources, classes)
     check_stages(res, H, sources, classes, repo)
     res.count("mjx_files", len(sources))
